@@ -397,6 +397,8 @@ func Check() *common.Check {
 	return &common.Check{
 		ID:    "C05",
 		Level: "exploration",
+		// every case is recorded before it runs: a fatal error or a hang of the worker is attributed to it
+		CrashSafe: true,
 		Rule: "the whole lexical space of C04 (all lexeme pairs x 7 (quick) / 43 (thorough) separator classes, reduced triples, every lexeme first/last, keywords, comment catalogue x placement, 3-lexeme multi-line layouts with blank lines, " +
 			"indentation, CRLF, tabs, comments before tokens, multi-line and non-ASCII literals): every token, end marker and comment is checked for 1-based, Start<=End<=next.Start, non-decreasing, inside the input, exact line, " +
 			"exact column on ASCII tab-free lines; all strings of <=3 (quick) / <=4 (thorough) fragments over the 37-fragment alphabet with the reference lexer's offsets as expected spans; error locations: unterminated literal/comment x prefix layouts, every lexeme x every rejected hostile byte x 3 placements, and the first N statements of every sqlgen section " +
